@@ -460,7 +460,7 @@ def passthrough(ctx, getter="getDrivingForce", ne=2, npts=1, form="default", mix
     kind, own = _GETTERS[getter]
     default = _PHASES[1] if kind == "prec" else _PHASES[0]
     named = _PHASES[2] if kind == "prec" else _PHASES[1]          # a non-default phase
-    qphase = default if form == "default" else named
+    qphase = default if form in ("default", "kwopts") else named
     if mixed:
         other = [p for p in _PHASES if p != qphase]
         for dname in ("drivingForceModels", "diffusivityModels", "interfacialCompositionModels", "curvatureModels"):
@@ -502,8 +502,6 @@ def passthrough(ctx, getter="getDrivingForce", ne=2, npts=1, form="default", mix
     if form == "default":
         args, kw = list(pos), {}
     elif form == "pos":
-        if getter == "getInterfacialComposition" and len(pos) == 1:
-            pos = pos + [0]
         args, kw = list(pos) + [named], {}
     elif form == "kw":
         args, kw = list(pos), dict(opts, **{pkw: named})
@@ -866,6 +864,9 @@ for _g in ("getDrivingForce", "getInterdiffusivity", "getTracerDiffusivity"):
     _pt += [{"getter": _g, "ne": 2, "npts": 1, "form": "default", "mixed": True},
             {"getter": _g, "ne": 3, "npts": 2, "form": "kw", "mixed": True},
             {"getter": _g, "ne": 3, "npts": 1, "form": "pos", "mixed": False}]
+_pt += [{"getter": "getDrivingForce", "ne": 2, "npts": 2, "form": "kwopts", "mixed": True},
+        {"getter": "getTracerDiffusivity", "ne": 3, "npts": 1, "form": "kwopts", "mixed": True},
+        {"getter": "getGrowthAndInterfacialComposition", "ne": 3, "npts": 2, "form": "kwopts", "mixed": True}]
 _pt += [{"getter": "getInterfacialComposition", "ne": 2, "npts": 1, "form": "default", "mixed": True},
         {"getter": "getInterfacialComposition", "ne": 2, "npts": 2, "form": "kw", "mixed": True},
         {"getter": "getInterfacialComposition", "ne": 2, "npts": 2, "form": "pos", "mixed": False}]
@@ -877,6 +878,23 @@ _pt_all = [{"getter": g, "ne": ne, "npts": k, "form": f, "mixed": mx}
            for g in _GETTERS for ne in (2, 3) for k in (1, 2) for f in ("default", "kw", "pos", "kwopts") for mx in (False, True)
            if not (g == "getInterfacialComposition" and ne == 3)
            and not (g in ("curvatureFactor", "getGrowthAndInterfacialComposition", "impingementFactor") and ne == 2)]
+
+_FORMS2 = [("scalar", False), ("list", False), ("list", True), ("1d", False), ("1d", True), ("2d", False), ("2d", True)]
+_FORMS3 = [("scalar", False), ("list", False), ("list", True), ("1d", False), ("2d", False), ("2d", True)]
+
+
+def _th_trained(grids2, grids3, whiches=(None,)):
+    out, k = [], 0
+    for ne, grids, forms in ((2, grids2, _FORMS2), (3, grids3, _FORMS3)):
+        for (nx, nT, bc) in grids:
+            for w in whiches:
+                for f, bt in forms:
+                    d = {"ne": ne, "nx": nx, "nT": nT, "logX": k % 2 == 1, "broadcast": bc, "form": f, "batch": bt}
+                    if w is not None:
+                        d["which"] = w
+                    out.append(d); k += 1
+    return out
+
 
 HARNESSES = [
     Harness("C20.roundtrip_kwn", roundtrip_kwn, functions=_F_RT, assumptions=_A_RT, stubs=_S_FILE,
@@ -916,10 +934,8 @@ HARNESSES = [
                               {"ne": 3, "nx": 1, "nT": 2, "logX": True, "broadcast": True, "form": "list"},
                               {"ne": 3, "nx": 2, "nT": 2, "logX": False, "broadcast": True, "form": "2d", "batch": True},
                               {"ne": 3, "nx": 2, "nT": 1, "logX": False, "broadcast": True, "form": "list", "batch": True}],
-                    "thorough": [{"ne": ne, "nx": nx, "nT": nT, "logX": lx, "broadcast": bc, "form": f, "batch": bt}
-                                 for ne in (2, 3) for nx in (1, 2, 3) for nT in (1, 2) for lx in (False, True) for bc in (True, False)
-                                 for f in ("scalar", "list", "1d", "2d") for bt in (False, True)
-                                 if not (nx == 1 and nT == 1) and (bc or nx == nT) and not (bt and (f == "scalar" or (ne == 3 and f == "1d")))]}),
+                    "thorough": _th_trained([(2, 2, True), (2, 2, False), (3, 1, True), (1, 3, True), (3, 2, True)],
+                                            [(2, 2, True), (2, 2, False), (3, 1, True), (1, 3, True)])}),
     Harness("C20.trained_diff", trained_diff, functions=_F_TR, stubs=_S_THERM + _S_KERNEL, opts={"batch": False}, assumptions=_A_TR,
             bounds={"components": "ne", "compositions": "nx", "temperatures": "nT", "input forms": "float/list/(N,)/(e,)/(N,1)/(N,e)"},
             params={"quick": [{"ne": 2, "nx": 2, "nT": 2, "logX": False, "broadcast": True, "form": "2d", "which": "inter"},
@@ -932,10 +948,8 @@ HARNESSES = [
                               {"ne": 3, "nx": 1, "nT": 2, "logX": True, "broadcast": True, "form": "1d", "which": "inter"},
                               {"ne": 3, "nx": 2, "nT": 1, "logX": True, "broadcast": True, "form": "list", "which": "tracer"},
                               {"ne": 3, "nx": 2, "nT": 1, "logX": False, "broadcast": True, "form": "list", "which": "inter", "batch": True}],
-                    "thorough": [{"ne": ne, "nx": nx, "nT": nT, "logX": lx, "broadcast": bc, "form": f, "which": w, "batch": bt}
-                                 for ne in (2, 3) for nx in (1, 2) for nT in (1, 2) for lx in (False, True) for bc in (True, False)
-                                 for w in ("inter", "tracer") for f in ("scalar", "list", "1d", "2d") for bt in (False, True)
-                                 if not (nx == 1 and nT == 1) and (bc or nx == nT) and not (bt and (f == "scalar" or (ne == 3 and f == "1d")))]}),
+                    "thorough": _th_trained([(2, 2, True), (2, 2, False), (3, 1, True), (1, 3, True)],
+                                            [(2, 2, False), (2, 1, True), (1, 2, True)], whiches=("inter", "tracer"))}),
     Harness("C20.trained_ic", trained_ic, functions=_F_TR, stubs=_S_THERM + _S_KERNEL, assumptions=_A_TR,
             bounds={"temperatures": "nT", "Gibbs-Thomson values": "ng"},
             params={"quick": [{"nT": 1, "ng": 2, "logY": False, "broadcast": True},
